@@ -319,6 +319,103 @@ def _take_while_count(ids):
     return fn
 
 
+def _fold_to_loop(ids):
+    """`it.fold(init, |mut acc, x| { body; acc })` -> `{ let mut acc = init; for x in it { body } acc }` (the closure hands the same
+    accumulator back on every path through its tail): the definition of fold."""
+    def fn(n):
+        if not (n.get("k") == "call" and (n.get("callee") or "") == "core::iter::traits::iterator::Iterator::fold" and len(n.get("args", [])) == 3):
+            return n
+        it, init, clo = n["args"][0], n["args"][1], hir.simp(n["args"][2])
+        if not (isinstance(clo, dict) and clo.get("k") == "closure" and len(clo.get("params", [])) == 2 and clo["params"][0].get("k") == "pbind"):
+            return n
+        body = hir.simp(clo["body"])
+        if not (isinstance(body, dict) and body.get("k") == "block" and "expr" in body):
+            return n
+        tail = hir.simp(body["expr"])
+        acc = clo["params"][0]
+        if not (tail.get("k") == "local" and tail.get("id") == acc.get("id")) or any(x.get("k") == "ret" for x in nodes_outside_closures(body)):
+            return n
+        ln = n.get("ln")
+        loop_body = {"k": "block", "stmts": list(body.get("stmts", [])), "ty": "()", "ln": ln}
+        acc_pat = dict(acc, mode="BindingMode(No, Mut)")
+        return {"k": "block", "ln": ln, "ty": n.get("ty"), "norm": "fold-to-loop",
+                "stmts": [{"k": "let", "pat": acc_pat, "init": init, "ln": ln, "norm": "fold-to-loop"},
+                          mk_for(clo["params"][1], it, loop_body, ids, ln)],
+                "expr": {"k": "local", "name": acc["name"], "id": acc.get("id"), "ln": ln, "ty": n.get("ty")}}
+    return fn
+
+
+def _filter_fusion(n):
+    """`for (a, b) in it.filter(|(_, q)| c) { body }` -> `for (a, b) in it { if !c[q := b] { continue; } body }` when the closure's
+    pattern names a sub-set of what the loop's pattern names, position by position (the closure sees a reference to the same item)."""
+    if n.get("k") != "match" or n.get("src") != "ForLoopDesugar":
+        return n
+    it = n.get("scrut")
+    if not (isinstance(it, dict) and it.get("k") == "call" and (it.get("callee") or "").endswith("IntoIterator::into_iter") and len(it.get("args", [])) == 1):
+        return n
+    inner = hir.simp(it["args"][0])
+    if not (isinstance(inner, dict) and inner.get("k") == "call" and (inner.get("callee") or "") == "core::iter::traits::iterator::Iterator::filter" and len(inner["args"]) == 2):
+        return n
+    clo = hir.simp(inner["args"][1])
+    if not (isinstance(clo, dict) and clo.get("k") == "closure" and len(clo.get("params", [])) == 1) or any(x.get("k") == "ret" for x in nodes_outside_closures(clo["body"])) \
+            or not pure(clo["body"]) and any(x.get("k") in ("assign", "assignop") for x in all_nodes(clo["body"])):
+        return n
+    try:
+        lp = hir.simp(n["arms"][0]["body"])
+        m = hir.simp(lp["body"]["stmts"][0] if lp["body"].get("stmts") else lp["body"]["expr"])
+        some = [a for a in m["arms"] if hir.last_seg((a["pat"].get("path") or {}).get("path")) == "Some"][0]
+        sp = some["pat"]
+        user_pat = sp["fields"][0]["p"] if sp["k"] == "pstruct" else sp["pats"][0]
+    except (KeyError, IndexError, TypeError):
+        return n
+
+    def strip(p_):
+        while isinstance(p_, dict) and p_.get("k") in ("pref", "pderef"):
+            p_ = p_["p"]
+        return p_
+    cp_, up = strip(clo["params"][0]), strip(user_pat)
+    ren = {}
+    if cp_.get("k") == "pbind" and up.get("k") == "pbind":
+        ren[cp_.get("id")] = up
+    elif cp_.get("k") == "ptuple" and up.get("k") == "ptuple" and len(cp_["pats"]) == len(up["pats"]):
+        for a_, b_ in zip(cp_["pats"], up["pats"]):
+            a_, b_ = strip(a_), strip(b_)
+            if a_.get("k") == "pwild":
+                continue
+            if a_.get("k") == "pbind" and b_.get("k") == "pbind":
+                ren[a_.get("id")] = b_
+            else:
+                return n
+    elif cp_.get("k") != "pwild":
+        return n
+
+    def sub(x):
+        if x.get("k") == "local" and x.get("id") in ren:
+            return dict(x, name=ren[x["id"]]["name"], id=ren[x["id"]].get("id"))
+        return x
+    cond = map_tree(copy.deepcopy(clo["body"]), sub)
+    ln = n.get("ln")
+    c0 = hir.simp(cond)
+    while isinstance(c0, dict) and c0.get("k") == "block" and not c0.get("stmts") and "expr" in c0:
+        c0 = hir.simp(c0["expr"])
+    neg = c0["e"] if (isinstance(c0, dict) and c0.get("k") == "un" and c0.get("op") == "Not" and "callee" not in c0) else \
+        {"k": "un", "op": "Not", "e": cond, "ty": "bool", "ln": ln, "norm": "filter-fusion"}
+    guard = {"k": "if", "c": neg,
+             "t": {"k": "block", "stmts": [{"k": "continue", "ty": "!", "ln": ln}], "ty": "!", "ln": ln}, "ty": "()", "ln": ln, "norm": "filter-fusion"}
+    new = copy.deepcopy(n)
+    new["scrut"]["args"][0] = inner["args"][0]
+    lp = hir.simp(new["arms"][0]["body"])
+    m = lp["body"]["stmts"][0] if lp["body"].get("stmts") else lp["body"]["expr"]
+    some = [a for a in m["arms"] if hir.last_seg((a["pat"].get("path") or {}).get("path")) == "Some"][0]
+    body = some["body"]
+    if isinstance(body, dict) and body.get("k") == "block":
+        some["body"] = dict(body, stmts=[guard] + list(body.get("stmts", [])))
+    else:
+        some["body"] = {"k": "block", "stmts": [guard], "expr": body, "ty": body.get("ty") if isinstance(body, dict) else None, "ln": ln}
+    new["norm"] = "filter-fusion"
+    return new
+
+
 def _position_by_ref(n):
     """`xs.iter().position(|&b| c)` -> `xs.iter().copied().position(|b| c)`: the closure sees the same values in the same order
     (the pattern `&b` copies the element out of the reference)."""
@@ -1720,6 +1817,50 @@ def _first_use(s, i):
     return r
 
 
+def mut_ref_alias(root):
+    """`let r = &mut a.b;` (an immutable binding of a mutable borrow of a field path of a local)  ->  every later `r` is `&mut a.b`,
+    every `*r` is `a.b`. While `r` is live the borrow checker lets nothing else touch `a.b`, and `r` is never re-pointed, so the
+    name and the place are interchangeable."""
+    def field_path(e):
+        e = hir.simp(e)
+        while isinstance(e, dict) and e.get("k") == "field":
+            e = hir.simp(e["e"])
+        return isinstance(e, dict) and e.get("k") == "local"
+
+    def fn(n):
+        if n.get("k") != "block":
+            return n
+        seq = list(n.get("stmts", []))
+        tail = n.get("expr")
+        for idx, s_ in enumerate(seq):
+            if not (isinstance(s_, dict) and s_.get("k") == "let" and "els" not in s_ and s_.get("pat", {}).get("k") == "pbind" and "init" in s_):
+                continue
+            if "Mut" in str(s_["pat"].get("mode", "")).split(",")[-1] or "Ref" in str(s_["pat"].get("mode", "")):
+                continue
+            init = hir.simp(s_["init"])
+            if not (isinstance(init, dict) and init.get("k") == "ref" and init.get("mut") and field_path(init["e"]) and hir.simp(init["e"]).get("k") == "field"):
+                continue
+            vid = s_["pat"].get("id")
+            place = init["e"]
+
+            def sub(x, vid=vid, init=init, place=place):
+                if x.get("k") == "un" and x.get("op") == "Deref" and "callee" not in x:
+                    inner = hir.simp(x["e"])
+                    if isinstance(inner, dict) and inner.get("k") == "local" and inner.get("id") == vid:
+                        return copy.deepcopy(place)
+                if x.get("k") == "local" and x.get("id") == vid:
+                    return copy.deepcopy(init)
+                return x
+            rest = [map_tree(t, sub) for t in seq[idx + 1:]]
+            new = dict(n, stmts=seq[:idx] + rest)
+            if tail is not None:
+                new["expr"] = map_tree(tail, sub)
+            new["norm"] = "mut-ref-alias"
+            return fn(new)
+        return n
+    return map_tree(root, fn)
+
+
 def single_use_temps(root):
     """`let t = E; S` where S evaluates `t` first and `t` occurs nowhere else -> S with E in place of t (E may have effects:
     it is still evaluated at the same moment).  Not part of the global normalisation (it would rename too much of what the rules
@@ -1829,6 +1970,8 @@ def normalise_crate(name, crate):
         h = map_tree(h, _try_for_each(ids))
         h = map_tree(h, _take_while_count(ids))
         h = map_tree(h, _position_by_ref)
+        h = map_tree(h, _fold_to_loop(ids))
+        h = map_tree(h, _filter_fusion)
         h = map_tree(h, _explicit_try(ids))
         h = unroll_const_loops(h, const_bodies, ids)
         h = specialise_range_arms(h, ids)
@@ -1856,6 +1999,7 @@ def normalise_crate(name, crate):
         h = split_struct_lets(h)
         h = cast_to_uses(h)
         h = alias(h, b.get("params", []))
+        h = mut_ref_alias(h)
         h = subst_int_lets(h)
         h = map_tree(h, _assign_op)
         h = map_tree(h, _index_through_ref)
